@@ -70,8 +70,9 @@ ZipfDistribution<IntType>::UpdateCDF()
   zipf_cdf_.reserve(bin_num);
   zipf_cdf_.emplace_back(base_prob);
   for (IntType i = 1; i < bin_num; ++i) {
+    // accumulated rounding errors may push the running sum above one
     const auto ith_prob = zipf_cdf_.at(i - 1) + base_prob / pow(i + 1, alpha_);
-    zipf_cdf_.emplace_back(ith_prob);
+    zipf_cdf_.emplace_back(ith_prob < 1.0 ? ith_prob : 1.0);
   }
   zipf_cdf_.at(bin_num - 1) = 1.0;
 }
@@ -125,7 +126,7 @@ ApproxZipfDistribution<IntType>::UpdateCDF()
     zipf_cdf_.at(0) = base_prob;
     for (IntType i = 1; i < static_cast<IntType>(kExactBinNum); ++i) {
       const auto ith_prob = zipf_cdf_.at(i - 1) + base_prob / pow(i + 1, alpha_);
-      zipf_cdf_.at(i) = ith_prob;
+      zipf_cdf_.at(i) = ith_prob < 1.0 ? ith_prob : 1.0;
     }
     zipf_cdf_.at(n_ - 1) = 1.0;
   } else {
